@@ -65,4 +65,27 @@ def FreshTarget (fs : FS) (dir : Path) : Prop :=
   (∀ q n, fs.get q = some n → ¬ StrictUnder dir q) ∧
   (∀ q c, AtOrAbove dir q → fs.get q ≠ some (.file c))
 
+/-- number of bytes of the regular file at `q` (0 when `q` is absent or a directory) -/
+def FS.fileLen (fs : FS) (q : Path) : Nat :=
+  match fs.get q with
+  | some (.file c) => c.length
+  | _ => 0
+
+/-- total number of bytes held by the regular files at the (distinct) paths `qs` -/
+def FS.bytesAt (fs : FS) (qs : List Path) : Nat := (qs.map fs.fileLen).sum
+
+/-- the inverse of module.escapeString, written from the description of the encoding ("!x" for
+an upper-case X, everything else literally): there is no such function in cue-lang/cue; it is
+the specification the escaping is proved against -/
+def unescapeString : Str → Option Str
+  | [] => some []
+  | c :: rest =>
+    if c = 33 then
+      match rest with
+      | d :: rest' =>
+        if 97 ≤ d ∧ d ≤ 122 then (unescapeString rest').map (fun t => (d - 32) :: t) else none
+      | [] => none
+    else if 65 ≤ c ∧ c ≤ 90 then none
+    else (unescapeString rest).map (fun t => c :: t)
+
 end CueVerif.Modzip
